@@ -8,7 +8,7 @@ CLAIMED = {
     'C01': dict(ref='5 (C01)', tech=TECH, note=NOTE + ' Assumed contract K-SCIPY for the SciPy Krylov solvers (returns (x, info); info==0 iff its own convergence test passed; no promise about callback arguments). The meaning of the residual token rests on C02.',
                 text='Proof with ghost version counters / residual tokens over all paths of _terminate, residual, the fine-grid loop of multigrid, krylov and solve: '
                      'exit status 0 iff CONVERGED; on success the reported error is the residual of the very field handed back (returned or caller-supplied) and below tol; '
-                     'zero source zeroes that field; PEC zeroing of a supplied field covers exactly the twelve boundary faces before any use; dtype check; return forms. '
+                     'zero source zeroes that field; PEC zeroing of a supplied field covers exactly the twelve boundary faces before any use; dtype check; return forms; solve_source hands the source field of the given source and every option on to solve. '
                      'Plus bounded real solves with an independently assembled operator.'),
     'C02': dict(ref='5 (C02)', tech=TECH, note=NOTE,
                 text='Proof, for every grid shape / stencil position / array content, that core.amat_x equals curl^T M_f curl + M_e on every '
@@ -19,13 +19,13 @@ CLAIMED = {
                      'unknowns) for the point smoother and the three line smoothers through the real blocks_to_amat, both sweep directions, '
                      'symbolic grid and block position; write-back map, PEC frame, affinity, bounds; core.solve for every number of unknowns: per-cell loop invariants refine the code to the banded LDL^T '
                      'recurrences, and a Lean 4 / Mathlib lemma (re-checked on every run) shows that the recurrences solve the system (uniquely for non-zero pivots); smoothing() dispatch and frame.'),
-    'C04': dict(ref='5 (C04)', tech=TECH, note=NOTE + ' WF(grid) (cell centres are node midpoints, coarse nodes every second node) is assumed; the numpy layout contracts used for RegularGridProlongator (broadcast/ravel/reshape in Fortran order, searchsorted, gather) are listed in the evidence.',
+    'C04': dict(ref='5 (C04)', tech=TECH, note=NOTE + ' WF(grid) (cell centres are node midpoints, coarse nodes every second node) is proved for meshes.BaseMesh and the coarse-grid construction of solver.restriction, and remains an assumption only for a third-party (discretize) finest grid; the numpy layout / sequence contracts used for RegularGridProlongator (broadcast/ravel/reshape in Fortran order, searchsorted, gather) are listed in the evidence.',
                 text='Proof that core.restrict equals the transpose of the spec prolongation (piecewise constant x bilinear hats) on every interior coarse edge '
                      'for all seven patterns on arbitrarily stretched symbolic grids, given the contract of restrict_weights which is itself proved against the '
                      'linear hat functions; hat weights non-negative and summing to one; _restrict_model_parameters sums exactly the fine-cell children '
                      '(slice algebra); restriction()/_get_restriction_weights wiring incl. anisotropy aliasing on all paths; prolongation() adds the interpolated slice of coarse index I '
                      'to the interior of fine index 2I, 2I+1 (or I) of the same component and writes nothing else, for all seven patterns and any grid size; the interpolator class RegularGridProlongator itself '
-                     '(executed from source on point-wise values) returns the bilinear hat interpolant for symbolic coarse / fine node vectors.'),
+                     '(executed from source on point-wise values) returns the bilinear hat interpolant for symbolic coarse / fine node vectors; meshes.BaseMesh establishes WF(grid) and the coarse nodes built by restriction() are every r-th fine node (induction base and step).'),
     'C05': dict(ref='5 (C05)', tech=TECH, note=NOTE + ' Callee summaries (restriction halves exactly the pattern directions; residual/smoothing do not touch cycling state) are assumed here and discharged under C04/C01.',
                 text='Proof over all paths of _current_sc_dir/_current_lr_dir, _max_level (loop invariant with the spec function H), parameter '
                      'set-up, and multigrid (recursion invariant, V/W/F child-call structure, one generic fine-grid cycle): unbounded in shape, level and limits.'),
@@ -47,7 +47,7 @@ CLAIMED = {
                      'square loop and dipole / point conversions (closed, square, area, right-handed normal, round trip).'),
     'C11': dict(ref='5 (C11)', tech=TECH, note=NOTE + ' Order contracts of Executor.map / tqdm process_map / map are assumed; determinism of a worker is outside the proof (bounded concrete run only); the h5 round trip of io.save / io.load is an assumed contract over an abstract scratch directory.',
                 text='Proof that process_map returns the results in input order in all four branches, that _compute, _bcompute and jvec build the i-th task from the i-th source-frequency pair and store the i-th result in that pair\'s slot '
-                     '(three pairs, so a non-involutive permutation cannot hide), and that the worker wrapper forwards exactly its own task; file-based hand-over over an abstract scratch directory (fresh or left behind by an earlier simulation): '
+                     '(three pairs, so a non-involutive permutation cannot hide; as_completed explored in every completion order), and that the worker wrapper forwards exactly its own task; file-based hand-over over an abstract scratch directory (fresh or left behind by an earlier simulation): '
                      'the worker reads its own task file and no other, starts from the field of that task, every file read was written earlier in the same computation, each slot loads the result of its own task whatever the order of completion; '
                      'plus bounded runs comparing 1 vs several workers and in-memory vs file-based execution (also in a re-used directory) bit for bit.'),
     'C12': dict(ref='5 (C12)', tech=TECH + '; provenance (taint) tags on array storages in the control executor',
@@ -82,7 +82,7 @@ CLAIMED = {
                 text='Proof obligations over the real configuration parser: the recognised key set of every section is observed from the parser itself; every recognised key reaches its destination; any other key is rejected with TypeError in every section; '
                      'terminal values win over file values (path, survey, model, output, save, load, cache, nproc, layered, function); documented keys are recognised and every emitted name (after the hand-over in cli.run) is accepted by the API; '
                      'the [data] section reaches Survey.select with all four keys whenever it is non-empty; every documented option written in the documented format (comma / semicolon / comment styles enumerated) arrives with the API value, '
-                     'with the inline-comment rule of configparser modelled from the constructor arguments the parser really passes.'),
+                     'with the inline-comment rule of configparser modelled from the constructor arguments the parser really passes; layered options given by the user survive every save / load / cache / -l history and equal those of the API call with layered=True.'),
     'C20': dict(ref='5 (C20)', tech=TECH + '; element-wise lifting of boolean masks over the generic frequency',
                 note=NOTE + ' Interpolating-spline and shape-preserving PCHIP behaviour of SciPy and the reference transform of empymod are assumed contracts; precondition fmin <= fmax.',
                 text='Proof over all paths of the frequency bookkeeping properties and of Fourier.interpolate for the three coarse-frequency options: the three groups (below / within / above the band) are disjoint and exhaustive, '
